@@ -17,8 +17,10 @@ ASSUMPTIONS = _x1.X1_ASSUMPTIONS
 F = ("raise", "fail")
 _q = ["count2", "scan2", "nested", "monitor1", "fly1", "cleanup", "clearcp", "subs", "baseline", "bare", "tworuns", "grid22s"]
 SPECS = {
-    "quick": [spec(k, bound=1, faults=F) for k in _q] + [spec(k, bound=1, faults=F, a=1) for k in ("scan2", "cleanup", "bare", "fly1")],
+    "quick": [spec(k, bound=1, faults=F) for k in _q] + [spec(k, bound=1, faults=F, a=1) for k in ("scan2", "cleanup", "bare", "fly1")]
+    + [spec(k, bound=1, faults=F, ri=1) for k in ("tiny", "nested", "planpause")],
     "thorough": [spec(k, bound=1, faults=F) for k in _q]
+    + [spec(k, bound=1, faults=F, ri=1, a=a) for k in ("tiny", "nested", "planpause", "count2", "monitor2") for a in (0, 1)]
     + [spec(k, bound=1, faults=F, a=1) for k in _q]
     + [spec(k, bound=2, faults=F) for k in ("tiny", "tworuns", "bare", "clearcp")]
     + [spec("tiny", bound=2, faults=F, a=1)],
